@@ -31,6 +31,8 @@ def _reply(rng, kind, text, k):
     # the data line: usually text; sometimes blank (an unnamed board answers QT with an empty line) or only blanks
     data = rng.choice(["D%d,%d" % (k, rng.randint(0, 999))] * 6 + ["", " ", "OK", "0"])
     nm = text.split(",")[0].strip().lower()
+    if nm == "v" and rng.random() < 0.7:           # what a board answers to V
+        data = "EBBv13_and_above EB Firmware Version " + rng.choice(["2.8.1", "2.5.3", "2.7.0", "3.0.2"])
     ev = ["E"] + empties() + [("L", data)]
     if nm not in NOOK:
         ev += empties() + [("L", "OK")]
@@ -74,6 +76,17 @@ def generate(rng, tier):
         cases.append({"has_port": hp, "reqs": reqs, "events": sum(parts, []), "expect": exps if hp else [None] * len(exps), "family": fam if hp else "no-port"})
         if fam == "fault" and hp:
             cases[-1]["fault_cls"] = rng.choice(["SerialException", "SerialTimeoutException", "SerialTimeoutException", "OSError", "PortNotOpenError", "RuntimeError", None])
+    # the same query two or three times on one open port, other requests in between: each one is written, each one returns the line
+    # that arrived for it (a board answers V with its version text every time it is asked)
+    for _ in range(max(12, n // 12)):
+        text = rng.choice(["V\r", "V\r", "v\r", "QB\r", "QT\r", "QP\r", "QG\r"])
+        reqs, parts, exps = [], [], []
+        for k in range(rng.choice([2, 2, 3])):
+            ev, data = _reply(rng, "q", text, k); reqs.append(("q", text)); parts.append(ev); exps.append(data)
+            if rng.random() < 0.4:
+                k2 = "q" if rng.random() < 0.5 else "c"; t2 = rng.choice(QUERIES if k2 == "q" else COMMANDS)
+                ev2, d2 = _reply(rng, k2, t2, 7); reqs.append((k2, t2)); parts.append(ev2); exps.append(d2)
+        cases.append({"has_port": True, "reqs": reqs, "events": sum(parts, []), "expect": exps, "family": "same-query-again"})
     # a fault exactly at the write of a request (a full output buffer: pyserial raises SerialTimeoutException, possibly after part of the
     # text has gone out): the request is attempted once, not repeated
     for _ in range(max(10, n // 15)):
